@@ -65,7 +65,13 @@ func c20RandRule(r *hx.Run) c20Rule {
 		ru.Alerts = append(ru.Alerts, a)
 		return fmt.Sprintf(`%s{alertname=%q%s}`, hx.Pick(rr, []string{"ALERTS", "ALERTS_FOR_STATE"}), a, hx.Pick(rr, []string{"", `, alertstate="firing"`}))
 	}
-	switch rr.Intn(7) {
+	switch rr.Intn(10) {
+	case 7:
+		ru.Expr = fmt.Sprintf("count(%s) + count(%s)", aref(), aref())
+	case 8:
+		ru.Expr = fmt.Sprintf("%s or %s or %s", aref(), ref(), aref())
+	case 9:
+		ru.Expr = fmt.Sprintf("sum(%s) by (job) / on(job) sum(%s) by (job) > %s", ref(), ref(), ref())
 	case 0:
 		ru.Expr = fmt.Sprintf("sum(%s) by (job)", ref())
 	case 1:
